@@ -258,9 +258,11 @@ func (ch *Channel) getRequestState(retryOpts *RetryOptions) *RequestState {
 }
 
 // getHost returns the host part of a host:port. If no ':' is found, it returns the
-// original string. Note: This hand-rolled loop is faster than using strings.IndexByte.
+// original string. The port is what follows the last ':' (an IPv6 host such as
+// "[::1]" contains colons itself). Note: This hand-rolled loop is faster than
+// using strings.LastIndexByte.
 func getHost(hostPort string) string {
-	for i := 0; i < len(hostPort); i++ {
+	for i := len(hostPort) - 1; i >= 0; i-- {
 		if hostPort[i] == ':' {
 			return hostPort[:i]
 		}
